@@ -201,6 +201,8 @@ def run(rec, F):
         if not ok:
             rec.finding(RV, "F4.chan-views/access/%s" % nm, "Channel::%s forwards to the queue for a %s view" % (nm, denied), loc=fn.loc, fn=fn.path)
     handoff(rec, F, send, recv)
+    sync_release(rec, F)
+    park_kind(rec, F, send, recv)
 
 
 def results_with_effect(F, fn, enum_suffix, mutator):
@@ -263,7 +265,8 @@ def handoff(rec, F, send, recv):
         t = h.blocks[b]["t"]
         arms = {}
         for v, dst in t["targets"]:
-            arms[sv[1].get(v)] = arm_region(h, b, dst) | {dst}
+            # what is certain to run once this variant's edge is taken (robust to arms that share code)
+            arms[sv[1].get(v)] = arm_region(h, b, dst) | {dst} | set(x for x in h.pdom.get(dst, set()) if x >= 0)
         for var in want_vars:
             reg = arms.get(var)
             if reg is None:
@@ -295,3 +298,92 @@ def handoff(rec, F, send, recv):
             rec.inst(R, "%s:%s" % (opname, var), ok=ok, loc=h.loc, note=why)
             if not ok:
                 rec.finding(R, "F4.chan-handoff/%s/%s" % (opname, var), "%s arm %s disagrees with ChannelQueue (%s)" % (opname, var, why), loc=h.loc, fn=h.path)
+
+
+def sync_release(rec, F):
+    R = rec.rule("F4.chan-sync", "a synchronous sender is released (found runnable) only when the slot is empty, i.e. after its value was taken: in the Sync arm of runnable_waiter every search of send_waiters is dominated by is_empty() == true")
+    fn = q(F, "runnable_waiter")
+    if fn is None:
+        rec.anchor_lost("F4.chan-sync", "ChannelQueue::runnable_waiter")
+        return
+    from .f5_trace import arm_region
+    sw = None
+    for b in sorted(fn.reachable):
+        sv = sem.switch_variants(F, fn, b)
+        if sv and sv[0].endswith("ChannelQueueKind"):
+            sw = (b, sv)
+            break
+    if sw is None:
+        rec.anchor_lost("F4.chan-sync", "kind switch in runnable_waiter")
+        return
+    b, sv = sw
+    t = fn.blocks[b]["t"]
+    sync_dst = [dst for v, dst in t["targets"] if sv[1].get(v) == "Sync"]
+    if not sync_dst:
+        listed = {sv[1].get(v) for v, _ in t["targets"]}
+        if "Sync" not in listed:
+            sync_dst = [t["otherwise"]]
+    reg = arm_region(fn, b, sync_dst[0]) | {sync_dst[0]}
+    clos = sem.closure_paths_in(fn)
+    n = 0
+    sites = []
+    for bi, tt in fn.calls():
+        if bi not in reg:
+            continue
+        if lastseg(tt["f"]) == "find_runnable_waiter" and sem.desc_mentions_field(sem.desc_operand(fn, tt["args"][0]), "send_waiters"):
+            sites.append((bi, tt))
+        for cp in sem.closure_args_of_call(fn, tt, clos):
+            c = F.fn(cp)
+            if c is None or not any(lastseg(t2["f"]) == "find_runnable_waiter" for _, t2 in c.calls()):
+                continue
+            # what the closure captured is visible where it is built
+            for b3, si, s3 in fn.stmts():
+                if s3["r"]["k"] == "agg" and s3["r"]["adt"] == "closure:" + cp:
+                    if any("send_waiters" in str(sem.desc_operand(fn, o)) for o in s3["r"]["ops"]) or any("send_waiters" in str(sem.desc_operand(c, t2["args"][0])) for _, t2 in c.calls() if t2["args"]):
+                        sites.append((bi, tt))
+    for bi, tt in sites:
+        n += 1
+        gs = sem.dominating_guards(F, fn, bi)
+        ok = any(sem.desc_call_name(d) == "is_empty" and outc is True for w, d, outc in gs)
+        rec.inst(R, "Sync: send_waiters search under is_empty()", ok=ok, loc=loc_of(tt["sp"]))
+        if not ok:
+            rec.finding(R, "F4.chan-sync/release-before-taken", "runnable_waiter (Sync) can hand back a parked sender while the slot still holds its value: a synchronous sender would proceed before its value has been taken", loc=loc_of(tt["sp"]), fn=fn.path)
+    rec.floor(R, "send_waiters searches in the Sync arm", n, 1)
+
+
+def park_kind(rec, F, send, recv):
+    R = rec.rule("F4.chan-park", "result variants that ChannelQueue constructs only for synchronous queues are parked with Fiber::block (not re-queued as a pending parent), the others with Fiber::sleep")
+    sync_only = {}
+    for fn, enum in ((send, "SendResult::"), (recv, "ReceiveResult::")):
+        for bi, si, s in fn.stmts():
+            if s["r"]["k"] == "agg" and enum in s["r"]["adt"]:
+                var = lastseg(s["r"]["adt"])
+                gs = sem.dominating_guards(F, fn, bi)
+                is_sync = [outc for w, d, outc in gs if sem.desc_call_name(d) == "is_sync"]
+                sync_only.setdefault((enum, var), []).append(is_sync == [True] or (True in is_sync and False not in is_sync))
+    for opname, enum in (("op_send", "SendResult"), ("op_receive", "ReceiveResult")):
+        h = F.find1(r"vm::ops::<impl laythe_vm::vm::Vm>::%s$" % opname)
+        if h is None:
+            continue
+        sw = None
+        for b in sorted(h.reachable):
+            sv = sem.switch_variants(F, h, b)
+            if sv and sv[0].endswith("::" + enum):
+                sw = (b, sv)
+        if sw is None:
+            continue
+        b, sv = sw
+        for v, dst in h.blocks[b]["t"]["targets"]:
+            var = sv[1].get(v)
+            must = set(x for x in h.pdom.get(dst, set()) if x >= 0) | {dst}
+            parks = [lastseg(tt["f"]) for bi, tt in h.calls() if bi in must and tt["f"] in ("laythe_vm::fiber::Fiber::block", "laythe_vm::fiber::Fiber::sleep")]
+            if not parks:
+                continue
+            so = sync_only.get((enum + "::", var))
+            if so is None:
+                continue
+            want = "block" if all(so) else "sleep"
+            ok = parks == [want]
+            rec.inst(R, "%s:%s parks with %s" % (opname, var, want), ok=ok, loc=h.loc, note=str(parks))
+            if not ok:
+                rec.finding(R, "F4.chan-park/%s/%s" % (opname, var), "%s parks the fiber with %s on %s::%s, which ChannelQueue produces %s: %s" % (opname, parks, enum, var, "only for synchronous queues (the fiber must be Blocked, not Pending: a pending fiber is re-queued as a parent when a child completes, leaving a stale waiter entry)" if want == "block" else "for buffered queues (the fiber must stay runnable-on-wake)", "expected " + want), loc=h.loc, fn=h.path)
